@@ -247,7 +247,7 @@ def h_bracket(V, vary=('chg', 'sym'), falsify=False):
     V.observe('text', text)
 
 
-POOL = ['C', 'CO', '[Na+]', 'c1ccccc1', 'CC(=O)O', '[Cl-]', 'O', 'N']
+POOL = ['C', 'CO', '[Na+]', 'c1ccccc1', 'CC(=O)O', '[Cl-]', 'O', 'N', 'CC']
 
 
 def h_reaction(V, maxn=2, falsify=False):
